@@ -25,6 +25,8 @@ E == << <<"3">>, <<"1", "2", "+">>, <<"1", "2">>, <<"1", "2", "swap">>, <<":", "
         <<"[", "1", "2", "]">>, <<"#(", "4", "#)", "1", "+">>, <<"7", "const", "c", "c", "c", "*">>, <<"depth">>,
         <<"2", "0", "do", "I", "loop">>, <<"1", "true", "if", "2", "+", "then">>, <<>>,
         <<"[", "1", "#(", "2", "#)", "]">>, <<":", "k", "local", "x", "x", "x", ";", "3", "k">>,
+        <<":", "a", "1", ";", ":", "b", "2", ";", "a", "b", "+">>,
+        <<":", "a", "1", ";", "8", "const", "c", ":", "b", "2", ";", ":", "d", "3", ";", "a", "b", "d", "c", "+", "+", "+">>,
         <<"dup">>, <<"drop">>, <<"v">>, <<"5", "var", "w">>, <<"1", "0", "/">>, <<"9", "!", "v">>, <<"nil">>, <<"true">> >>
 \* positions: prefix / suffix around the block
 Pos == << [pre |-> <<"9">>, suf |-> <<>>],
@@ -77,7 +79,9 @@ Case(s) ==
       comp   == X!Submit(h0, X!Label(withT, h0.srcs + 1), "compile")
       eOk    == X!Ok(alone)
       newNames == {w.dict[k].name : k \in (Len(h0.dict) + 1)..Len(w.dict)}
-      nonConst == {k \in (Len(h0.dict) + 1)..Len(w.dict) : w.dict[k].k # "const" /\ w.dict[k].name \in {"k", "w"}}
+      \* names defined by `: name` inside the expression
+      defsIn == {E[s.e][k + 1] : k \in {j \in 1..(Len(E[s.e]) - 1) : E[s.e][j] = ":"}}
+      nonConst == {k \in (Len(h0.dict) + 1)..Len(w.dict) : w.dict[k].k # "const" /\ w.dict[k].name \in defsIn \cup {"w"}}
       \* inside another meta block the stack is shared (same mode; pinned by test_meta_stack) and
       \* several values are not reversed: only single-valued, stack-insensitive blocks are judged there
       skip   == s.p = 4 /\ (~eOk \/ Len(vals) # 1 \/ E[s.e] \in {<<"depth">>, <<"dup">>, <<"drop">>})
